@@ -1,0 +1,42 @@
+// Validation of MQTT-SN client input which is translated to MQTT packets.
+//
+// MQTT-SN does not restrict most of these values but the MQTT broker must
+// close the connection when it receives a packet which violates MQTT
+// specification. Hence, we must not forward such input to the broker.
+
+package gateway
+
+import (
+	"strings"
+	"unicode/utf8"
+)
+
+// A valid MQTT "UTF-8 encoded string".
+// See MQTT specification v. 3.1.1, chapter 1.5.3.
+func isValidMqttString(s string) bool {
+	return utf8.ValidString(s) && !strings.ContainsRune(s, 0)
+}
+
+// A valid MQTT topic name (i.e. a topic a message can be published to).
+// See MQTT specification v. 3.1.1, chapters 3.3.2.1 and 4.7.
+func isValidMqttTopicName(topic string) bool {
+	return topic != "" && isValidMqttString(topic) && !hasWildcard(topic)
+}
+
+// A valid MQTT topic filter.
+// See MQTT specification v. 3.1.1, chapter 4.7.
+func isValidMqttTopicFilter(filter string) bool {
+	if filter == "" || !isValidMqttString(filter) {
+		return false
+	}
+	levels := strings.Split(filter, "/")
+	for i, level := range levels {
+		if strings.Contains(level, "#") && (level != "#" || i != len(levels)-1) {
+			return false
+		}
+		if strings.Contains(level, "+") && level != "+" {
+			return false
+		}
+	}
+	return true
+}
